@@ -21,6 +21,7 @@ from pathlib import Path
 from typing import Any, Dict, List, Optional, Tuple
 
 PROP = "C17"
+CPU_LIMIT_S = 10
 BUILTINS = ["int", "float", "str", "bool", "datetime", "None"]
 CKINDS = ["List", "Set", "Tuple", "Sequence"]
 CKIND_COQ = ["KList", "KSet", "KTuple", "KSeq"]
@@ -44,7 +45,14 @@ def tt(t):
 
 
 def ty_has(t, tag) -> bool:
-    return t[0] == tag or any(isinstance(x, tuple) and ty_has(x, tag) for x in t[1:])
+    """does the annotation contain a constructor `tag` ("F" also stands for "FL": both are written as names)"""
+    return t[0] == tag or (tag == "F" and t[0] == "FL") or any(isinstance(x, tuple) and ty_has(x, tag) for x in t[1:])
+
+
+def ty_map_leaf(t, f):
+    if t[0] in ("B", "C", "E", "F", "FL", "Bare"):
+        return f(t)
+    return tuple(ty_map_leaf(x, f) if isinstance(x, tuple) else x for x in t)
 
 
 def ty_py(t, quote_leaf: bool) -> str:
@@ -53,7 +61,7 @@ def ty_py(t, quote_leaf: bool) -> str:
         return BUILTINS[t[1]]
     if k in ("C", "E"):
         return t[1]
-    if k == "F":
+    if k in ("F", "FL"):
         return f'"{t[1]}"' if quote_leaf else t[1]
     if k == "O":
         return f"Optional[{ty_py(t[1], quote_leaf)}]"
@@ -83,6 +91,8 @@ def ty_coq(t, ids: Dict[str, int]) -> str:
         return f"(Enum {ids[t[1]]})"
     if k == "F":
         return f"(Fwd {ids[t[1]]})"
+    if k == "FL":
+        return f"(FwdLocal {ids[t[1]]})"
     if k == "O":
         return f"(Optional {ty_coq(t[1], ids)})"
     if k == "OL":
@@ -127,12 +137,14 @@ def ty_to_sx(t, ids) -> Any:
         return [10, t[1]]
     if k == "Ellip":
         return [11]
+    if k == "FL":
+        return [12, ids[t[1]]]
     return [99]
 
 
 def ty_resolve(t, kinds: Dict[str, str]):
     """harness-side resolution of forward references (kinds: class name -> 'enum' | 'dataclass' | 'plain')"""
-    if t[0] == "F":
+    if t[0] in ("F", "FL"):
         return ("E", t[1]) if kinds[t[1]] == "enum" else ("C", t[1])
     return tuple(ty_resolve(x, kinds) if isinstance(x, tuple) else x for x in t)
 
@@ -342,8 +354,9 @@ def run_case(case: dict, case_dir: str) -> dict:
     by_name, env = {}, {}
     for d in case["decls"]:
         for m in mods:
-            if d["name"] in vars(m) and getattr(vars(m)[d["name"]], "__module__", None) == m.__name__:
-                by_name[d["name"]] = vars(m)[d["name"]]
+            scope = vars(m).get("CLASSES", vars(m))   # classes defined inside a function / nested in a class
+            if d["name"] in scope and getattr(scope[d["name"]], "__module__", None) == m.__name__:
+                by_name[d["name"]] = scope[d["name"]]
     for n, c in by_name.items():
         kind = next(d["kind"] for d in case["decls"] if d["name"] == n)
         env[c] = ("E", n) if kind == "enum" else ("C", n)
@@ -411,6 +424,8 @@ def serve(work: str, names: List[str]) -> None:
         if pid == 0:
             code = 0
             try:
+                import resource
+                resource.setrlimit(resource.RLIMIT_CPU, (CPU_LIMIT_S, CPU_LIMIT_S + 5))   # a case that does not terminate
                 case = json.load(open(os.path.join(d, "case.json")))
                 res = run_case(case, d)
                 json.dump(res, open(os.path.join(d, "result.json"), "w"))
@@ -418,7 +433,10 @@ def serve(work: str, names: List[str]) -> None:
                 json.dump({"crash": f"{type(e).__name__}: {e}"}, open(os.path.join(d, "result.json"), "w"))
                 code = 1
             os._exit(code)
-        os.waitpid(pid, 0)
+        _, status = os.waitpid(pid, 0)
+        if os.WIFSIGNALED(status) and not os.path.exists(os.path.join(d, "result.json")):
+            json.dump({"timeout": f"killed by signal {os.WTERMSIG(status)} after {CPU_LIMIT_S} s of CPU time"},
+                      open(os.path.join(d, "result.json"), "w"))
 
 
 # =====================================================================================================
@@ -469,12 +487,26 @@ def make_ids(decls) -> Dict[str, int]:
     return ids
 
 
-def render_module(decls, variant: str, name: str, imports: str = "") -> str:
-    lines = []
+def render_module(decls, variant: str, name: str, imports: str = "", layout: str = "module") -> str:
+    """layout: 'module' (module-level classes), 'function' (all classes defined inside a function), 'nested' (all
+    classes nested in a class Outer); in the last two the module only exposes CLASSES = {name: class}."""
+    head = []
     if variant == "future":
-        lines.append("from __future__ import annotations")
-    lines += ["import enum", "from dataclasses import dataclass, field", "from datetime import datetime",
-              "from typing import *", imports, ""]
+        head.append("from __future__ import annotations")
+    head += ["import enum", "from dataclasses import dataclass, field", "from datetime import datetime",
+             "from typing import *", imports, ""]
+    body = render_decls(decls, variant)
+    names = ", ".join(f"{d['name']!r}: {d['name']}" for d in decls)
+    if layout == "function":
+        body = ["def make_classes():"] + ["    " + l if l else l for l in body] + [f"    return {{{names}}}", "", "CLASSES = make_classes()"]
+    elif layout == "nested":
+        names = ", ".join(f"{d['name']!r}: Outer.{d['name']}" for d in decls)
+        body = ["class Outer:"] + ["    " + l if l else l for l in body] + ["", f"CLASSES = {{{names}}}"]
+    return "\n".join(head + body) + "\n"
+
+
+def render_decls(decls, variant: str) -> List[str]:
+    lines: List[str] = []
     for d in decls:
         if d["kind"] == "enum":
             lines += [f"class {d['name']}(enum.Enum):", "    A = 1", "    B = 2", ""]
@@ -498,7 +530,7 @@ def render_module(decls, variant: str, name: str, imports: str = "") -> str:
             dflt = {"none": "", "value": " = None", "factory": " = field(default_factory=list)"}[f["default"]]
             lines.append(f"    {f['name']}: {ann}{dflt}")
         lines.append("")
-    return "\n".join(lines) + "\n"
+    return lines
 
 
 def prog_coq(decls, ids) -> str:
@@ -592,7 +624,7 @@ def gen_ann(rng, targets_cls, targets_enum, earlier, variant, unsupported=False)
 
 
 def _leaf(t):
-    return t if t[0] in ("B", "C", "E", "F", "Bare") else _leaf(t[-1])
+    return t if t[0] in ("B", "C", "E", "F", "FL", "Bare") else _leaf(t[-1])
 
 
 def gen_query(rng, classes) -> list:
@@ -698,6 +730,23 @@ def gen_program(rng, stream: str) -> dict:
                     clash = clash or len(names) != len(set(names))
             if clash:
                 continue
+        layout = "module"
+        if stream in ("local", "local_missing"):
+            # all classes defined inside a function, or nested in a class: a name written as a string is found neither in
+            # the module globals nor by a scan of the loaded modules, only in the diagram (resolved_type's fallback)
+            layout = rng.choice(["function", "nested"])
+            dc_set = set(dcs)
+
+            def conv(leaf):
+                if leaf[0] == "F" or (leaf[0] in ("C", "E") and (layout == "nested" or variant != "leaf")):
+                    # only dataclasses can be in the diagram; a string naming a local enum / plain class cannot be resolved by anybody
+                    return ("FL", leaf[1]) if leaf[1] in dc_set else ("B", rng.randint(0, 4))
+                return leaf
+            for d in decls:
+                for f in d["fields"]:
+                    f["ann"] = ty_map_leaf(tt(f["ann"]), conv)
+            if not any(ty_has(tt(f["ann"]), "FL") for d in decls for f in d["fields"]):
+                continue
         if stream == "typecheck":
             # the first k declarations form a module that sees the rest only under TYPE_CHECKING
             if len(decls) < 2:
@@ -718,8 +767,20 @@ def gen_program(rng, stream: str) -> dict:
                 continue
         k = len(dcs) if rng.chance(0.5) else rng.randint(1, len(dcs))
         classes = rng.sample(dcs, k)
+        if stream in ("local", "local_missing"):
+            used = {_leaf(tt(f["ann"]))[1] for d in decls for f in d["fields"] if _leaf(tt(f["ann"]))[0] == "FL"}
+            if stream == "local":
+                classes = classes + [n for n in dcs if n in used and n not in classes]   # every local name is in the diagram
+                rng.shuffle(classes)
+            else:
+                # leave out one class that a diagram class refers to by a local name: nobody can resolve it
+                cand = sorted(used)
+                drop = rng.choice(cand)
+                classes = [n for n in dcs if n != drop]
+                if not classes:
+                    continue
         ops = gen_ops(rng, classes)
-        case = {"kind": "diagram", "stream": stream, "variant": variant, "decls": decls, "classes": classes, "ops": ops}
+        case = {"kind": "diagram", "stream": stream, "variant": variant, "layout": layout, "decls": decls, "classes": classes, "ops": ops}
         return finish_case(case)
     raise RuntimeError("generator could not produce a valid hierarchy")
 
@@ -736,7 +797,8 @@ def finish_case(case: dict) -> dict:
         case["modules"] = [{"name": "c17_m1", "source": render_module(m1, case["variant"], "c17_m1", imp1)},
                            {"name": "c17_m2", "source": render_module(m2, case["variant"], "c17_m2", "from c17_m1 import *")}]
     else:
-        case["modules"] = [{"name": "c17_scratch", "source": render_module(case["decls"], case["variant"], "c17_scratch")}]
+        case["modules"] = [{"name": "c17_scratch", "source": render_module(case["decls"], case["variant"], "c17_scratch",
+                                                                           layout=case.get("layout", "module"))}]
     return case
 
 
@@ -821,14 +883,18 @@ def run_worker_batch(cases: List[dict], tag: str, procs: int = 8) -> List[dict]:
 
 
 def snippet(case) -> str:
+    local = case.get("layout", "module") != "module"
+
+    def cref(n):   # local classes must not become module-level names of the script (that would bypass the fallback)
+        return f"CLASSES[{n!r}]" if local else n
     if len(case["modules"]) == 1:
         src = case["modules"][0]["source"]
     else:
         src = "import os, sys, tempfile\nd = tempfile.mkdtemp(); sys.path.insert(0, d)\n" + "".join(
             f"open(os.path.join(d, {m['name'] + '.py'!r}), 'w').write({m['source']!r})\n" for m in case["modules"]) + \
             "from c17_m1 import *\nfrom c17_m2 import *\n"
-    classes = ", ".join(case["classes"])
-    lines = [src, "from krrood.class_diagrams.class_diagram import ClassDiagram", "import copy",
+    classes = ", ".join(cref(c) for c in case["classes"])
+    lines = [src, "from krrood.class_diagrams.class_diagram import ClassDiagram, Association, Inheritance", "import copy",
              f"cd = ClassDiagram([{classes}])",
              "snap = lambda d: sorted((type(e).__name__, e.source.clazz.__name__, e.target.clazz.__name__, getattr(getattr(e, 'field', None), 'name', None)) for e in d._dependency_graph.edges())",
              "objs = [cd]; before = snap(cd); print([w.clazz.__name__ for w in cd.wrapped_classes], before)"]
@@ -838,12 +904,12 @@ def snippet(case) -> str:
         elif o[0] == "copy":
             lines.append(f"objs.append(copy.copy(objs[{o[1]}]))")
         elif o[2][0] == "outedges":
-            lines.append(f"print('object {o[1]} out-edges of {o[2][1]}:', sorted(str(e) + ':' + e.target.clazz.__name__ for e in objs[{o[1]}].get_out_edges({o[2][1]})), "
-                         f"'| its graph says:', sorted(str(e) + ':' + e.target.clazz.__name__ for _, _, e in objs[{o[1]}]._dependency_graph.out_edges(objs[{o[1]}].get_wrapped_class({o[2][1]}).index)))")
+            c = cref(o[2][1])
+            lines.append(f"print('object {o[1]} out-edges of {o[2][1]}:', sorted(str(e) + ':' + e.target.clazz.__name__ for e in objs[{o[1]}].get_out_edges({c})), "
+                         f"'| its graph says:', sorted(str(e) + ':' + e.target.clazz.__name__ for _, _, e in objs[{o[1]}]._dependency_graph.out_edges(objs[{o[1]}].get_wrapped_class({c}).index)))")
         elif o[2][0] in ("outnb", "innb"):
             meth = "get_outgoing_neighbors_with_relation_type" if o[2][0] == "outnb" else "get_incoming_neighbors_with_relation_type"
-            lines.append(f"from krrood.class_diagrams.class_diagram import Association, Inheritance; "
-                         f"print('object {o[1]} {o[2][0]} {o[2][1]}:', sorted(w.clazz.__name__ for w in objs[{o[1]}].{meth}({o[2][1]}, {'Association' if o[2][2] else 'Inheritance'})))")
+            lines.append(f"print('object {o[1]} {o[2][0]} {o[2][1]}:', sorted(w.clazz.__name__ for w in objs[{o[1]}].{meth}({cref(o[2][1])}, {'Association' if o[2][2] else 'Inheritance'})))")
     return "\n".join(lines)
 
 
@@ -953,6 +1019,12 @@ def check_diagrams(rep, cases: List[dict], model_ok: bool, kf_classes: set, tag:
     kind_exprs: Dict[str, Tuple[str, Any]] = {}
     for c, r, v in zip(cases, results, vals):
         st = stream_of(c)
+        if "timeout" in r:
+            rep.count(json.dumps([c["decls"], c["classes"], c["ops"], c["variant"]], sort_keys=True), True)
+            rep.violation({"kind": "counterexample", "part": "edges", "case": {k: c[k] for k in ("decls", "classes", "ops", "variant", "stream", "layout") if k in c},
+                           "impl": ["timeout", r["timeout"]], "spec": vals[cases.index(c)][1], "python": snippet(c),
+                           "explanation": "building the diagram / running the read-only operations did not terminate within the CPU-time limit"})
+            continue
         if "invalid" in r or "crash" in r:
             dist["invalid"] += 1
             rep.note(f"case skipped ({r.get('invalid') or r.get('crash')})")
@@ -975,17 +1047,22 @@ def check_diagrams(rep, cases: List[dict], model_ok: bool, kf_classes: set, tag:
             dist["edges_assoc"] += len([e for e in impl[1][1] if e[0] == 1])
         else:
             dist["build_raises"] += 1
-        base = {"case": {k: c[k] for k in ("decls", "classes", "ops", "variant", "stream") if k in c},
+        base = {"case": {k: c[k] for k in ("decls", "classes", "ops", "variant", "stream", "layout") if k in c},
                 "python": snippet(c)}
         # ---------------- structure
-        use_coq_spec = st != "override" and st != "unsupported"
+        use_coq_spec = st not in ("override", "unsupported", "local_missing")
         reference = spec if use_coq_spec else pyspec
         if st == "F" and not in_f:
             rep.oblige("generator:F", False, f"a case of the F stream is outside wf_prog: {c['decls']}")
         if use_coq_spec and pyspec is not None and pyspec != spec:
             rep.oblige("correspondence:spec-vs-independent-reading", False,
                        f"Coq Spec {spec} differs from the get_type_hints reading {pyspec} on {c['decls']}")
-        if st == "unsupported":
+        if st == "local_missing":
+            # a class is referred to by a name nobody can resolve (defined in a function, absent from the diagram): the
+            # Spec is silent; the model predicts what the code does (TypeResolutionError unless no diagram class reads it)
+            if model_ok and impl != model:
+                rep.oblige("correspondence:model", False, f"[local name outside the diagram] impl={impl} model={model} on {c['decls']} {c['classes']}")
+        elif st == "unsupported":
             # documented-unsupported forms: no Spec; the model must still predict the code (faithfulness), and the
             # Union[None, X] finding is recognised here
             if model_ok and impl != model:
@@ -1200,7 +1277,7 @@ def _run(tier: str, seed: int, replay=None) -> int:
     if replay is not None:
         case = replay.get("case") or {}
         if "decls" in case:
-            c = finish_case(dict(case, kind="diagram", ops=case.get("ops", []), variant=case.get("variant", "leaf")))
+            c = finish_case(dict(case, kind="diagram", ops=case.get("ops", []), variant=case.get("variant", "leaf")))  # layout travels in the case
             rep.extra["distribution"] = check_diagrams(rep, [c], model_ok, kf_open, tag="replay")
         else:
             rep.extra["classification"] = check_classification(rep, model_ok, kf_open)
@@ -1215,10 +1292,11 @@ def _run(tier: str, seed: int, replay=None) -> int:
     corpus = [(n, w) for n, w in load_corpus()]
     corpus_cases = [finish_case(dict(w["case"])) for n, w in corpus if not n.startswith("kf_")]
     rng = core.Rng(seed)
-    n_f, n_sh, n_ov, n_un, n_tc = (150, 30, 20, 40, 40) if tier == "quick" else (4000, 700, 400, 700, 700)
+    n_f, n_sh, n_ov, n_un, n_tc, n_lo, n_lm = (150, 30, 20, 40, 40, 50, 15) if tier == "quick" else (4000, 700, 400, 700, 700, 900, 250)
     cases = list(corpus_cases)
-    for stream, n in (("F", n_f), ("shared", n_sh), ("override", n_ov), ("unsupported", n_un), ("typecheck", n_tc)):
-        r = rng.fork({"F": 1, "shared": 2, "override": 3, "unsupported": 4, "typecheck": 5}[stream])
+    for stream, n in (("F", n_f), ("shared", n_sh), ("override", n_ov), ("unsupported", n_un), ("typecheck", n_tc),
+                      ("local", n_lo), ("local_missing", n_lm)):
+        r = rng.fork({"F": 1, "shared": 2, "override": 3, "unsupported": 4, "typecheck": 5, "local": 6, "local_missing": 7}[stream])
         for _ in range(n):
             cases.append(gen_program(r, stream))
     t1 = time.time()
